@@ -17,7 +17,7 @@ CHECKS = {
     "C01": ("safety oracle at the instant of every success report over unbounded fault schedules (drop/dup/delay/reorder/"
             "bit-flip/partition/stall/clock-jump/restart/filestore rejection); independent file comparison", "5 C01", "invariant at report time"),
     "C02": ("bounded liveness + completion oracle over the full configuration swarm and tape-decided pacing on a perfect link", "5 C02", "quiescence oracle"),
-    "C03": ("bounded liveness after at most K link faults with limits > K, history shell; coverage of the K<=1 cells measured", "5 C03", "bounded-liveness oracle"),
+    "C03": ("bounded liveness after at most K link faults with limits > K, history shell; before the seeded search every K=1 schedule and (thorough: every, quick: every third) K=2 schedule on small files is executed (sweep)", "5 C03, 12", "bounded-liveness oracle; K<=2 schedule sweep + seeded search"),
     "C07": ("sender stream model judged on every emitted PDU in fault-free, bounded-fault and cancel populations", "5 C07", "in-situ invariant vs SenderStream model"),
     "C09": ("independent reference checksums compared in situ on every EOF, completion decision and verify_checksum call; "
             "stand-alone prefix x chunk combinations that no transfer produces are NOT reached (DESIGN 6)", "5 C09, 6", "in-situ invariant vs reference checksums"),
@@ -29,7 +29,7 @@ CHECKS = {
             "settings; header mode, Metadata closure flag, segment length, CRC flag, id widths, sequence numbers judged on every "
             "emitted PDU; twin run without the premature requests must produce the same trace", "5 C19", "PutModel + twin-run differential"),
     "C20": ("routing table and routing/admission agreement judged on every routed PDU incl. synthetic kinds and header variants; "
-            "misroute and bad-status faults; table cells covered are measured (sampling, not enumeration)", "5 C20", "in-situ oracle + misroute fault"),
+            "misroute and bad-status faults; the finite table (kind x direction flag x mode x CRC x id width x handler state x routed / misrouted, 1728 cells) is swept completely before the seeded search", "5 C20, 12", "in-situ oracle + misroute fault; complete table sweep"),
     "C11": ("differential: the same transaction (own slice of the decision tape) executed on fresh handlers, after a tape-chosen "
             "history of completed / cancelled / faulted / abandoned / reset transactions on the same handler objects, and beside a "
             "sibling pair of handler instances interleaved by the same scheduler; normalised observable traces and final file "
